@@ -72,6 +72,7 @@ func rulePrintForm(c *core.Ctx, rule, ruleNotes string) {
 			}
 			rest = args[2:]
 		}
+		var argIsStr []bool
 		for _, a := range rest {
 			if t, ok := a.(*absint.Term); ok && t.Op == "slice" {
 				if p, ok := t.Args[0].(absint.Ptr); ok {
@@ -80,13 +81,65 @@ func rulePrintForm(c *core.Ctx, rule, ruleNotes string) {
 						if !ok {
 							break
 						}
+						isStr := false
 						if iv, ok := hv.(*absint.Iface); ok {
 							hv = iv.V
+							if bt, ok := iv.T.Underlying().(*types.Basic); ok && bt.Info()&types.IsString != 0 {
+								isStr = true
+							}
 						}
 						w.args = append(w.args, hv)
+						argIsStr = append(argIsStr, isStr)
 					}
 				}
 			}
+		}
+		// a line written with Fprintln of strings put together with "+" is the format those pieces spell:
+		// Fprintln(w, "  # "+name+": "+value) writes what Fprintf(w, "  # %s: %s\n", name, value) writes
+		isPrint := callee.String() == "fmt.Fprint"
+		if (w.ln && !(len(w.args) == 1 && w.args[0].Key() == `c:""`)) || isPrint {
+			var format strings.Builder
+			var fargs []absint.Value
+			lit := func(v absint.Value) (string, bool) {
+				if cst, ok := v.(absint.Const); ok && cst.V != nil && cst.V.Kind() == constant.String {
+					return strings.ReplaceAll(constant.StringVal(cst.V), "%", "%%"), true
+				}
+				return "", false
+			}
+			for i, a := range w.args {
+				if i > 0 && (!isPrint || (i < len(argIsStr) && !argIsStr[i] && !argIsStr[i-1])) {
+					format.WriteString(" ") // Fprintln always, Fprint only between two operands that are not strings
+				}
+				parts := []absint.Value{a}
+				if t, ok := a.(*absint.Term); ok && t.Op == "+" && i < len(argIsStr) && argIsStr[i] {
+					parts = t.Args
+				}
+				for _, p := range parts {
+					// a piece that a helper formatted: its constant format and its operands take its place
+					if st, ok := p.(*absint.Term); ok && st.Op == "call:fmt.Sprintf" && len(st.Args) == 2 {
+						if cst, ok := st.Args[0].(absint.Const); ok && cst.V != nil && cst.V.Kind() == constant.String {
+							format.WriteString(constant.StringVal(cst.V))
+							for _, leaf := range printedLeaves(s, st.Args[1], 3) {
+								fargs = append(fargs, leaf)
+							}
+							continue
+						}
+					}
+					if l, ok := lit(p); ok {
+						format.WriteString(l)
+					} else if i < len(argIsStr) && argIsStr[i] {
+						format.WriteString("%s")
+						fargs = append(fargs, p)
+					} else {
+						format.WriteString("%v")
+						fargs = append(fargs, p)
+					}
+				}
+			}
+			if !isPrint {
+				format.WriteString("\n")
+			}
+			w.ln, w.consts, w.format, w.args = false, true, format.String(), fargs
 		}
 		key := w.format + "|" + w.pos
 		if !seen[key] {
@@ -106,7 +159,8 @@ func rulePrintForm(c *core.Ctx, rule, ruleNotes string) {
 	pterms := x.Run(x.NewState(fn, nil, nil))
 	var pathBad []string
 	for _, tm := range pterms {
-		if tm.Kind != "return" || len(tm.Ret) != 1 || !isNilConst(tm.Ret[0]) {
+		// paths that may report success: nil, or an error value not known to be set (return ew.err)
+		if tm.Kind != "return" || len(tm.Ret) != 1 || nilnessOf(x, tm.State, tm.Ret[0]) == "nonnil" {
 			continue
 		}
 		if tm.State.Data["heading"] != "1" || tm.State.Data["terminator"] != "1" {
@@ -291,7 +345,7 @@ func ruleConstFormats(c *core.Ctx, rule string, only func(*ssa.Function) bool) {
 			}
 			return true, ""
 		case *ssa.Call:
-			cal := x.Call.StaticCallee()
+			cal := core.Callee(&x.Call)
 			if cal != nil && cal.String() == "strings.Repeat" && len(x.Call.Args) == 2 {
 				if k, ok := x.Call.Args[0].(*ssa.Const); ok && k.Value != nil && k.Value.Kind() == constant.String && !strings.Contains(constant.StringVal(k.Value), "%") {
 					return true, ""
@@ -386,7 +440,7 @@ func ruleConstFormats(c *core.Ctx, rule string, only func(*ssa.Function) bool) {
 			for _, g := range c.P.Funcs {
 				for _, b := range g.Blocks {
 					for _, in := range b.Instrs {
-						if ci, ok := in.(ssa.CallInstruction); ok && ci.Common().StaticCallee() == fn && idx >= 0 && idx < len(ci.Common().Args) {
+						if ci, ok := in.(ssa.CallInstruction); ok && core.Callee(ci.Common()) == fn && idx >= 0 && idx < len(ci.Common().Args) {
 							n++
 							if ok, why := safe(ci.Common().Args[idx], depth+1); !ok {
 								return false, why
@@ -413,7 +467,7 @@ func ruleConstFormats(c *core.Ctx, rule string, only func(*ssa.Function) bool) {
 				if !ok {
 					continue
 				}
-				cal := ci.Common().StaticCallee()
+				cal := core.Callee(ci.Common())
 				if cal == nil {
 					continue
 				}
